@@ -89,11 +89,11 @@ NewClient ==
 ----------------------------------------------------------------------------
 (* API calls.  ApiCall registers the call; ApiEnter (silent) takes the client's mutex. *)
 ApiCall(a, m, arg) ==
-  /\ waiting' = waiting \cup {[a |-> a, m |-> m, arg |-> arg, refused |-> FALSE]}
+  /\ waiting' = waiting \cup {[a |-> a, m |-> m, arg |-> arg, refused |-> FALSE, left |-> FALSE, pc |-> "", fut |-> 0]}
   /\ UNCHANGED <<link, up, down, obj, proc, inside, sessC, futs, fname, nfut, cfg, obs>>
 
 ApiEnter(w) ==
-  /\ inside = NoCall /\ w \in waiting /\ ~w.refused
+  /\ inside = NoCall /\ w \in waiting /\ ~w.refused /\ ~w.left
   /\ LET ok == CASE w.m = "connect" -> obj.state = "init"
                  [] w.m \in {"publish", "subscribe", "unsubscribe", "disconnect"} -> obj.state = "connected"
                  [] w.m = "close" -> obj.state # "init"
@@ -107,10 +107,24 @@ ApiEnter(w) ==
 In(m, pc) == inside.m = m /\ inside.pc = pc
 
 \* the call returns; a future it created gets the harness's name
+\* silent: the call has done its work and releases the mutex; its return is logged some time later (another call may enter meanwhile)
+ApiLeave ==
+  /\ inside # NoCall /\ inside.pc \in {"done", "failed"}
+  /\ (inside.m \in {"close", "disconnect"} /\ inside.pc = "done") => proc.pc \in {"off", "dead"}
+  /\ waiting' = waiting \cup {[a |-> inside.a, m |-> inside.m, arg |-> 0, refused |-> FALSE, left |-> TRUE, pc |-> inside.pc, fut |-> inside.fut]}
+  /\ inside' = NoCall
+  /\ UNCHANGED <<link, up, down, obj, proc, sessC, futs, fname, nfut, cfg, obs>>
+
 ApiRet(a, m, err, f) ==
   \/ /\ \E w \in waiting : w.refused /\ w.a = a /\ w.m = m /\ waiting' = waiting \ {w}
      /\ err # "" /\ f = ""
      /\ UNCHANGED <<link, up, down, obj, proc, inside, sessC, futs, fname, nfut, cfg, obs>>
+  \/ /\ \E w \in waiting : w.left /\ w.a = a /\ w.m = m /\ waiting' = waiting \ {w} /\
+          /\ \/ w.pc = "done" /\ (err = "" \/ m \in {"close", "disconnect"}) /\ (f = "") = (w.fut = 0)
+             \/ w.pc = "failed" /\ err # "" /\ f = ""
+          /\ fname' = IF f = "" THEN fname ELSE fname \cup {<<f, w.fut>>}
+          /\ \A o \in obs : o[1] = f => \E x \in futs : x.n = w.fut /\ G("C09", "FutureResolvesTruthfully", x.st = o[2])
+     /\ UNCHANGED <<link, up, down, obj, proc, inside, sessC, futs, nfut, cfg, obs>>
   \/ /\ inside.a = a /\ inside.m = m
      /\ \/ inside.pc = "done" /\ (err = "" \/ m \in {"close", "disconnect"}) /\ (f = "") = (inside.fut = 0)   \* (Close/Disconnect report a cleanup error)
         \/ inside.pc = "failed" /\ err # "" /\ f = ""
